@@ -30,8 +30,10 @@ POOL = {
 
 
 def cell(ty, v):
-    if ty in (3, 4):
-        return [ty, fb(v)]
+    if ty == 3:
+        return [3, fb(sgl(v))]      # a SINGLE cell only ever holds a binary32 value (CellValue rounds on construction)
+    if ty == 4:
+        return [4, fb(v)]
     if ty == 5:
         return [5, [ord(c) for c in v]]
     return [ty, v]
@@ -224,12 +226,6 @@ def gen_cases(rich=False):
         for operands in operand_sets:
             md = mk_module(name, operands)
             stacks = list(stack_cases(name, arity, rich)) if arity else [[]]
-            if name == 'exp':
-                # an integer power with a huge exponent does not terminate in bounded
-                # time/memory on either side (Python big integers / Z.pow): left out
-                stacks = [st for st in stacks
-                          if not (len(st) == 2 and st[1][0] in (1, 2) and abs(st[1][1]) > 64
-                                  and st[0][0] in (1, 2) and abs(st[0][1]) > 1)]
             extra = []
             if name in ('io', 'allocarr', 'initarrl', 'initarrg', 'arridx', 'frame'):
                 # device / array instructions: argument stacks of several shapes
